@@ -137,6 +137,18 @@ def _take_snapshot():
                     pass
             elif isinstance(v, _SIMPLE):
                 _SNAP.append((o, name, "simple", v))
+            else:
+                # mutable default arguments of the library's functions are process-global state too
+                fn = getattr(v, "__func__", v)
+                if isinstance(fn, _types.FunctionType):
+                    dv = list(fn.__defaults__ or ()) + list((fn.__kwdefaults__ or {}).values())
+                    for i, d in enumerate(dv):
+                        if isinstance(d, _CONT):
+                            try:
+                                _SNAP.append((fn, "%s(default %d)" % (fn.__qualname__, i), "defcont",
+                                              (d, _copy.deepcopy(d))))
+                            except Exception:
+                                pass
     _SNAP.append((None, "names", "names", {id(o): set(vars(o)) for o in _owners()}))
 
 
@@ -158,6 +170,19 @@ def reset_globals():
                         changed.append("%s.%s (new)" % (getattr(ow, "__name__", ow), extra))
                     except Exception:
                         pass
+            continue
+        if kind == "defcont":
+            obj, saved = orig
+            if obj != saved:
+                changed.append(name)
+                if isinstance(obj, dict):
+                    obj.clear()
+                    obj.update(_copy.deepcopy(saved))
+                elif isinstance(obj, set):
+                    obj.clear()
+                    obj.update(saved)
+                else:
+                    obj[:] = _copy.deepcopy(saved)
             continue
         cur = vars(o).get(name, None)
         if kind == "cont":
